@@ -42,6 +42,7 @@ T.update({
  "C06-c": ("compio-driver/tests/fd_sync_drop_race.rs", "cargo test -p compio-driver --features sync --offline --test fd_sync_drop_race", [("ws-sched", "c06b", []), ("ws-net", "c06a", [])]),
  "C07-c": ("compio-driver/tests/buffer_pool_late_multishot.rs", "cargo test -p compio-driver --offline --test buffer_pool_late_multishot", [("ws-net", "c07", [])]),
  "C12-c": ("compio-io/tests/compat_waker_migration.rs", "cargo test -p compio-io --features compat --offline --test compat_waker_migration", [("ws-io", "c12", [])]),
+ "C18-c": ("compio-dispatcher/tests/join_worker_panic.rs", "cargo test --workspace --offline --test join_worker_panic -- --test-threads=1", [("ws-pool", "c18", [])]),
  "C16-c": ("compio-quic/tests/open_wait_wakeups.rs", NX + " --test open_wait_wakeups -E 'package(compio-quic)'", [("ws-proto", "c16", [])]),
 })
 EXTRA = "/tmp/seed/confirm_table.json"   # further entries added later: {"C17-a": [demo_path, cmd, [[ws,bin,[args]]]]}
